@@ -151,6 +151,8 @@ def make_case(seed, depth, flavour="basic"):
             prog, argt, rett = G.vmap(max(depth, 2))
             if not (prog[0] == "vmap" and prog[1] and prog[1][0] == 1):
                 continue
+        elif root == "dimap" and (seed % 100) % 2 == 0:
+            prog, argt, rett = G.dimap_dropping(max(depth, 1))       # every other targeted dimap: post reads an argument pre drops
         elif root == "static":
             prog, argt, rett = G.static(max(depth, 1), ["S"] * rng.randint(1, 2))      # with arguments: its edits change them
         elif root:
@@ -178,7 +180,7 @@ def make_case(seed, depth, flavour="basic"):
     if root == "switch" and argt and argt[0] == "I":
         # the targeted stream meets the clamped indices in both stagings in every run: -1 / n as Python ints first
         nbr = len(core[1]) if core[0] == "switch" else nb
-        args[0], stages[0] = [(-1, "py"), (nbr, "py"), (-1, "ar"), (nbr, "ar"), (0, "py"), (1, "ar"), (-2, "py"), (nbr + 1, "ar")][seed % 8]
+        args[0], stages[0] = [(-1, "py"), (nbr, "py"), (-1, "ar"), (nbr, "ar"), (0, "py"), (1, "ar"), (-2, "py"), (nbr + 1, "ar")][(seed % 100) % 8]
     univ = addresses_n(core, list(lens))
     # de-duplicate
     seen, u2 = set(), []
@@ -607,6 +609,16 @@ def run_case(case):
         if case["zero_len"] and r[0] == "err" and r[1] in ("EMissingAddress", "EType"):
             r = ("known", "zero-length-assess", r[2])
         steps.append({"kind": "assess_own", "ti": 0, "res": r})
+        # ... and with the arguments as the caller staged them (Python-int indices stay Python ints): same answer
+        r = guarded(lambda: g.assess(tr0.get_choices(), jargs))
+        if r[0] == "ok":
+            try:
+                r = ("ok", (gfi.from_jax(r[1][0], "S"), gfi.from_jax(r[1][1], case["rett"])))
+            except AssertionError as e:
+                r = ("inexact", str(e))
+        if case["zero_len"] and r[0] == "err" and r[1] in ("EMissingAddress", "EType"):
+            r = ("known", "zero-length-assess", r[2])
+        steps.append({"kind": "assess_own", "ti": 0, "res": r, "with": "call arguments"})
     # 3. project with selections
     for s in case["sels"]:
         r = guarded(lambda: gfi.from_jax(tr0.project(jax.random.key(1), gfi.realise_sel(s)), "S"))
@@ -804,6 +816,10 @@ def run_case(case):
                 q = gen_request(rng, case, present, kind)
             if kind == "switch_index":
                 pass
+            elif case["flavour"] == "root:dimap" and ei == 0 and case["prog"][0] == "dimap" and case["prog"][1] == [("var", 1)] \
+                    and len(cur_args) == 2:
+                q = ("empty",)
+                nargs, changed = [cur_args[0] + 1 + rng.randint(0, 2), cur_args[1]], [True, False]
             elif kind in ("index",):
                 nargs, changed = list(cur_args), [False] * len(cur_args)
             else:
